@@ -364,7 +364,7 @@ def c10_variants(ctx):
         ctx.check(ok, 'variants:own-config', init.site(sv.site), 'each variant is built from its own configuration entry', unparse(e)[:120])
     vp = ctx.repo.func('bespokeasm.assembler.model.instruction_macro.InstructionMacro.variants')
     rr = returns(vp)
-    ctx.check(len(rr) == 1 and unparse(rr[0].value) == 'self._variants', 'variants:property', vp.site(), 'macro.variants is that list', '; '.join(unparse(r) for r in rr))
+    ctx.check(len(rr) == 1 and unparse(rr[0].value) in ('self._variants', 'list(self._variants)', 'self._variants[:]', 'self._variants.copy()', 'tuple(self._variants)'), 'variants:property', vp.site(), 'macro.variants is that list', '; '.join(unparse(r) for r in rr))
 
 
 def c10_4(ctx):
